@@ -34,6 +34,9 @@ IsFail(x) == x.t = "fail"
 RECURSIVE HasFail(_)
 HasFail(x) == IsFail(x) \/ (IsArr(x) /\ \E i \in DOMAIN x.v : HasFail(x.v[i]))
 
+RECURSIVE HasNull(_)
+HasNull(x) == IsNull(x) \/ (IsArr(x) /\ \E i \in DOMAIN x.v : HasNull(x.v[i]))
+
 RECURSIVE WellFormed(_)
 WellFormed(x) == \/ x.t = "null" /\ DOMAIN x = {"t"}
                  \/ x.t = "int" /\ x.v \in Int
@@ -114,6 +117,12 @@ RawBind(env, b) ==
        IF IsFail(p) THEN Fail
        ELSE IF p = NoVal \/ IsNull(p) THEN (IF b.df # NoVal THEN b.df ELSE Null)
        ELSE p
+
+\* cwltool builds the step input parameter from the tool's input parameter, so a tool-level `default` also
+\* acts as the default of the step input (it is visible to valueFrom / when / scatter)
+RawStepBind(env, st, b) ==
+  LET v == RawBind(env, b) IN
+  IF ~IsFail(v) /\ IsNull(v) /\ st.tool \in {"incd"} /\ b.name = "x" THEN IntV(10) ELSE v
 
 \* valueFrom library (rendered as JavaScript by the harness, see harness/vh/sut/cwl_render.py)
 VF(vf, self, obj) ==
@@ -212,7 +221,7 @@ LinkTypeMismatch(env, st) ==
         \/ ps.lp.k = "all" /\ ((~scattered /\ ty = "int[]") \/ (scattered /\ ty \in {"int", "int?"}))
 
 EvalStep(env, st, lib) ==
-  LET raw == [i \in DOMAIN st.in |-> RawBind(env, st.in[i])] IN
+  LET raw == [i \in DOMAIN st.in |-> RawStepBind(env, st, st.in[i])] IN
   IF \E i \in DOMAIN raw : IsFail(raw[i]) THEN Fail
   ELSE IF LinkTypeMismatch(env, st) THEN Fail
   ELSE LET obj == [n \in {st.in[i].name : i \in DOMAIN st.in} |->
@@ -293,7 +302,7 @@ BindEvents(env, b, where) ==
         THEN {"default-used"} ELSE {})
 
 StepEvents(env, st) ==
-  LET raw == [i \in DOMAIN st.in |-> RawBind(env, st.in[i])]
+  LET raw == [i \in DOMAIN st.in |-> RawStepBind(env, st, st.in[i])]
       Val(n) == raw[CHOOSE i \in DOMAIN st.in : st.in[i].name = n]
       m == IF st.method = "none" THEN "single" ELSE st.method
   IN UNION {BindEvents(env, st.in[i], "in") : i \in DOMAIN st.in}
@@ -304,6 +313,9 @@ StepEvents(env, st) ==
                          /\ \E i \in DOMAIN st.sc : Len(Val(st.sc[i]).v) # Len(Val(st.sc[1]).v)
                       THEN {"dotproduct-unequal-lengths"} ELSE {}))
      \cup (IF st.when.k = "bad" THEN {"when-not-boolean"} ELSE {})
+     \cup (IF st.tool = "incd" /\ (\E i \in DOMAIN st.in : st.in[i].name = "x" /\ RawBind(env, st.in[i]) = Null)
+              /\ ((st.when.k \in {"pos", "nn"} /\ st.when.n = "x") \/ (\E i \in DOMAIN st.in : st.in[i].vf \in {"inx", "inc", "wrap"}))
+           THEN {"tool-default-seen-by-step-expression"} ELSE {})
      \cup (IF st.tool = "sub_scat" /\ ~(\E i \in DOMAIN raw : IsFail(raw[i]))
               /\ LET vf == BindNamed(st, "x").vf
                      obj == [n \in {st.in[i].name : i \in DOMAIN st.in} |-> Val(n)]
@@ -319,6 +331,10 @@ Events(p, r) ==
   \cup UNION {BindEvents([ins |-> ins, res |-> r, steps |-> p.steps], p.outs[k], "out") : k \in DOMAIN p.outs}
   \cup (IF \E j \in DOMAIN r : r[j] = Null /\ p.steps[j].sc = <<>> /\ p.steps[j].when.k # "none" THEN {"step-skipped"} ELSE {})
   \cup (IF \E j \in DOMAIN r : IsFail(r[j]) THEN {"step-fails"} ELSE {})
+  \cup (IF \E j \in DOMAIN r : /\ p.steps[j].sc # <<>> /\ p.steps[j].when.k # "none" /\ ~IsFail(r[j]) /\ HasNull(r[j])
+                                  /\ \E i \in DOMAIN p.steps : \E b \in DOMAIN p.steps[i].in :
+                                        \E q \in DOMAIN p.steps[i].in[b].src : p.steps[i].in[b].src[q] = Of(j)
+        THEN {"skipped-scatter-slice-consumed-by-step"} ELSE {})
 
 (* ------------------------------------------------------------------------------------------ *)
 (* PART 4: the program generator.  A state is a partial program; the actions add one syntactic
@@ -523,7 +539,7 @@ LawResIsEval == res = RunSteps(prog, EffIns(prog), <<>>, SubLib)
 StepEnv(j) == [ins |-> EffIns(prog), res |-> SubSeq(StepRes, 1, j - 1), steps |-> prog.steps]
 StepObj(j) == LET st == prog.steps[j] IN
               [n \in {st.in[i].name : i \in DOMAIN st.in} |->
-                 RawBind(StepEnv(j), st.in[CHOOSE i \in DOMAIN st.in : st.in[i].name = n])]
+                 RawStepBind(StepEnv(j), st, st.in[CHOOSE i \in DOMAIN st.in : st.in[i].name = n])]
 
 \* flat_crossproduct = nested_crossproduct with the scatter levels removed (two independent definitions)
 LawFlatIsFlattenedNest == Complete => \A j \in DOMAIN prog.steps :
